@@ -1,0 +1,43 @@
+//go:build verif
+// +build verif
+
+// Contracts for the admin web handler of GC (C17: a pass runs only when asked, with the age limit of
+// the configuration unless the request overrides it).
+
+package gobeansdb
+
+import (
+	"net/http"
+
+	"github.com/douban/gobeansdb/store"
+)
+
+var _ = store.SpecGCStoreOK
+
+// the value of a form field (interpreted by govc: an uninterpreted function of request and name)
+func formValue(r *http.Request, name string) string { return r.FormValue(name) }
+
+// a missing field yields the default, without error
+//@ func getFormValueInt
+//@   props C17
+//@   ints both
+//@   requires r != nil
+//@   ensures formValue(r, name) == "" ==> n == ndefault && err == nil
+
+// step assertion at the call of HStore.GC: what the handler passes on
+func lemmaGCRequest(r *http.Request, noGCDays int, pretend bool, merge bool) bool { return true }
+
+//@ func lemmaGCRequest
+//@   props C17
+//@   ints both
+//@   requires formValue(r, "nogcdays") == "" ==> noGCDays == -1      // no override: -1 tells gcCheckEnd to use the configured NoGCDays
+//@   requires pretend == (formValue(r, "run") != "true")              // a pass runs only if run=true was sent
+//@   requires merge == (formValue(r, "merge") == "true")
+//@   ensures result0
+
+//@ func handleGC
+//@   props C17
+//@   ints math
+//@   requires r != nil && w != nil && storage != nil && storage.hstore != nil && store.SpecGCStoreOK(storage.hstore)
+//@   modifies *
+//@   ghost after GC#1: lemmaGCRequest(r, noGCDays, pretend, merge)
